@@ -20,7 +20,7 @@ pub const CHECKS: &[CheckDef] = &[
     CheckDef { id: "C02", level: "exploration", rules: &["C02.", "C01.lost", "C01.redelivery", "C01.conservation", "CRASH."], quick_runs: 6000, thorough_runs: 200_000, nontrivial_rule: ">=1 acknowledgement that returned OK, followed by a clock advance, with >=1 other message on the subscription" },
     CheckDef { id: "C03", level: "exploration", rules: &["C03.", "C05.reject", "CRASH."], quick_runs: 6000, thorough_runs: 200_000, nontrivial_rule: ">=2 consumers had overlapping requests on one subscription, or >=1 redelivery was observed" },
     CheckDef { id: "C04", level: "exploration", rules: &["C04.", "C03.ackid", "C06.quiescent", "CRASH."], quick_runs: 8000, thorough_runs: 300_000, nontrivial_rule: "sequential lease run with >=1 redelivery after expiry (a probe on the late side saw the message again)" },
-    CheckDef { id: "C05", level: "exploration", rules: &["C05.", "CRASH."], quick_runs: 8000, thorough_runs: 300_000, nontrivial_rule: "sequential lease run with >=1 ModifyAckDeadline naming an outstanding delivery" },
+    CheckDef { id: "C05", level: "exploration", rules: &["C05.", "C03.double", "CRASH."], quick_runs: 8000, thorough_runs: 300_000, nontrivial_rule: "sequential lease run with >=1 ModifyAckDeadline naming an outstanding delivery" },
     CheckDef { id: "C06", level: "exploration", rules: &["C06.", "CRASH."], quick_runs: 6000, thorough_runs: 200_000, nontrivial_rule: ">=1 parked blocking Pull or stream received messages that became available while it was parked" },
     CheckDef { id: "C07", level: "exploration", rules: &["C07.", "CRASH."], quick_runs: 3000, thorough_runs: 100_000, nontrivial_rule: "a mailbox was full when a request or a fan-out post was sent (probe mailbox_full_at_send / post_blocked_on_full_mailbox)" },
     CheckDef { id: "C08", level: "exploration", rules: &["C08.", "CRASH."], quick_runs: 6000, thorough_runs: 200_000, nontrivial_rule: ">=1 pair of overlapping Publish calls on one topic and >=2 subscriptions on a topic" },
@@ -68,8 +68,13 @@ pub fn generate(id: &str, run_seed: u64, _thorough: bool) -> Plan {
             }
         }
         "C02" => {
-            if pick < 50 {
+            if pick < 45 {
                 f_lease(run_seed, &LeaseOpts { modacks: pick < 25, limits: false })
+            } else if pick < 53 {
+                // acknowledgements naming more than 1000 deliveries at once
+                f_limits(run_seed, false)
+            } else if pick < 57 {
+                f_bigbatch(run_seed)
             } else {
                 f_general(run_seed, &GeneralOpts { deletes: false, ..full })
             }
@@ -90,7 +95,13 @@ pub fn generate(id: &str, run_seed: u64, _thorough: bool) -> Plan {
                 f_lease(run_seed, &LeaseOpts { modacks: false, limits: pick < 50 })
             }
         }
-        "C05" => f_lease(run_seed, &LeaseOpts { modacks: true, limits: false }),
+        "C05" => {
+            if pick < 20 {
+                f_lease_stream(run_seed)
+            } else {
+                f_lease(run_seed, &LeaseOpts { modacks: true, limits: false })
+            }
+        }
         "C06" => {
             if pick < 85 {
                 f_consumers(run_seed, pick < 45)
